@@ -76,7 +76,73 @@ def syn_numbers(ctx, x: float):
     return ctx(x * ctx.constant(2) + ctx.constant(3) * x + ctx.constant("pi"))
 
 
-SYN = dict(syn_nested=(syn_nested, [(":float", ":float")], ["python", "numpy", "cpp", "xla_client"]),
+# ---- definitions with ALIASED locals (two or more local variables bound to the same expression): Context.__call__ walks
+# the caller's locals in definition order and the FIRST-bound local names the expression; the later aliases must not
+# appear in the text.  Every aliased value is used at least twice so that its reference name is printed.
+
+def alias_scaled_norm(ctx, x: float, y: float):
+    mx = ctx.maximum(abs(x), abs(y))
+    largest = mx
+    mn = ctx.minimum(abs(x), abs(y))
+    smallest = mn
+    q = mn / mx
+    ratio = q
+    return ctx(mx * ctx.sqrt(1 + ratio * ratio) + smallest * largest)
+
+
+def alias_two(ctx, x: float, y: float):
+    zeta = x * y
+    alpha = zeta
+    return ctx(alpha * alpha + zeta)
+
+
+def alias_three(ctx, x: float, y: float):
+    sigma = x + y
+    beta = sigma
+    omega = sigma
+    return ctx(omega * beta + sigma * x)
+
+
+def alias_of_argument(ctx, x: float, y: float):
+    aa = x
+    bb = x
+    hh = aa * bb
+    gg = hh
+    return ctx(gg + hh * y + bb)
+
+
+def alias_used_in_other_order(ctx, x: float, y: float):
+    pp = x * y
+    kappa = x - y
+    second = pp
+    first = pp
+    later = kappa
+    return ctx(first * second + later * kappa + pp)
+
+
+# name -> (tokens that must occur in the text, tokens that must not)
+ALIAS_EXPECT = dict(alias_scaled_norm=(["mx", "mn", "q"], ["largest", "smallest", "ratio"]),
+                    alias_two=(["zeta"], ["alpha"]),
+                    alias_three=(["sigma"], ["beta", "omega"]),
+                    alias_of_argument=(["x", "hh"], ["aa", "bb", "gg"]),
+                    alias_used_in_other_order=(["pp", "kappa"], ["first", "second", "later"]))
+
+
+def alias_struct(fname, text):
+    need, forbid = ALIAS_EXPECT[fname]
+    toks = set(re.findall(r"[A-Za-z_]\w*", text))
+    missing = [n for n in need if n not in toks]
+    present = [n for n in forbid if n in toks]
+    return dict(first_bound=need, later_aliases=forbid, missing=missing, present=present, ok=not missing and not present)
+
+
+_ALL5 = ["python", "numpy", "cpp", "stablehlo", "xla_client"]
+SYN = dict(alias_scaled_norm=(alias_scaled_norm, [(":float", ":float")], _ALL5),
+           alias_two=(alias_two, [(":float", ":float")], _ALL5),
+           alias_three=(alias_three, [(":float", ":float")], _ALL5),
+           alias_of_argument=(alias_of_argument, [(":float", ":float")], _ALL5),
+           alias_used_in_other_order=(alias_used_in_other_order, [(":float", ":float")], _ALL5),
+           syn_nested=(syn_nested, [(":float", ":float")], ["python", "numpy", "cpp", "xla_client"]),
            syn_commutative=(syn_commutative, [(":float", ":float", ":float")], ["python", "stablehlo", "xla_client"]),
            syn_numbers=(syn_numbers, [(":float",)], ["xla_client"]))
 
@@ -366,6 +432,8 @@ def mode_sha(doc):
         res = dict(req=req, kind=kind, sha=[sha(t) for t in texts], tmpfree=all("_tmp" not in t for t in texts))
         if struct is not None:
             res["dtype_struct"] = struct
+        if fname in ALIAS_EXPECT and texts and not texts[0].startswith("EXC:"):
+            res["alias_struct"] = alias_struct(fname, texts[0])
         if want_text:
             res["text"] = texts
         results.append(res)
